@@ -906,8 +906,12 @@ func ruleC06RefGroup(c *Ctx) {
 		}
 		return aPtr{&aCell{v: s}}
 	}
-	rows := aEnumerate(nil, func(e *aEnv) aVal { return c.aCall(passes, []aVal{mk(), aSym("R")}, e, 0, nil) })
-	TOP, REC, NIL, FIL := `["" == G.Symbol]`, "rec:"+passes.Name()+"(PARENT,R)", "[F == nil]", "maybe-nil:F.Filter()"
+	rows := aEnumerate(nil, func(e *aEnv) aVal { return c.aCall(passes, groupAndName(passes, mk(), aSym("R")), e, 0, nil) })
+	recArgs := "(PARENT,R)"
+	if len(groupAndName(passes, aSym("g"), aSym("n"))) == 2 && aShow(groupAndName(passes, aSym("g"), aSym("n"))[0]) == "n" {
+		recArgs = "(R,PARENT)"
+	}
+	TOP, REC, NIL, FIL := `["" == G.Symbol]`, "rec:"+passes.Name()+recArgs, "[F == nil]", "maybe-nil:F.Filter()"
 	t := checkTable(rows, []string{TOP, REC, NIL, FIL}, func(a map[string]bool) string {
 		switch {
 		case a[TOP]:
@@ -931,12 +935,12 @@ func ruleC06RefGroup(c *Ctx) {
 	matches := c.fn("/internal/refopts", "", "refGroupMatches")
 	sums := map[string]aSummary{
 		refQ(passes): func(fr *aFrame, args []aVal) (aVal, bool) {
-			return aBool(fr.env.atom("PASSES(" + aShow(args[0]) + ")")), true
+			return aBool(fr.env.atom("PASSES(" + aShow(groupArg(passes, args)) + ")")), true
 		},
 	}
 	if matches != nil {
 		sums[refQ(matches)] = func(fr *aFrame, args []aVal) (aVal, bool) {
-			return aBool(fr.env.atom("MATCHES(" + aShow(args[0]) + ")")), true
+			return aBool(fr.env.atom("MATCHES(" + aShow(groupArg(matches, args)) + ")")), true
 		}
 	}
 	recv := aStruct{gf, map[int]aVal{0: mk()}}
@@ -946,7 +950,7 @@ func ruleC06RefGroup(c *Ctx) {
 	c.judge("C06.refgroup", "group-filter", m, t, rows, "@G matches a name iff G's ancestors let it through and G itself (or, without a filter of its own, one of its subgroups) matches")
 	// matches(group): own filter decides when there is one
 	if matches != nil {
-		rows = aEnumerate(nil, func(e *aEnv) aVal { return c.aCall(matches, []aVal{mk(), aSym("R")}, e, 0, nil) })
+		rows = aEnumerate(nil, func(e *aEnv) aVal { return c.aCall(matches, groupAndName(matches, mk(), aSym("R")), e, 0, nil) })
 		bad := ""
 		for _, r := range rows {
 			isNil, asked := r.Atoms[NIL]
@@ -976,4 +980,29 @@ func renameAtoms(rows []aRow, alias map[string]string) {
 			}
 		}
 	}
+}
+
+// groupAndName orders the (group, reference name) arguments of a refgroup
+// predicate as the function declares them (the name is its string
+// parameter).
+func groupAndName(f *ssa.Function, group, name aVal) []aVal {
+	if len(f.Params) == 2 {
+		if b, ok := f.Params[0].Type().Underlying().(*types.Basic); ok && b.Kind() == types.String {
+			return []aVal{name, group}
+		}
+	}
+	return []aVal{group, name}
+}
+
+// groupArg picks the group argument (the one that is not the name string).
+func groupArg(f *ssa.Function, args []aVal) aVal {
+	for i, p := range f.Params {
+		if b, ok := p.Type().Underlying().(*types.Basic); ok && b.Kind() == types.String {
+			continue
+		}
+		if i < len(args) {
+			return args[i]
+		}
+	}
+	return args[0]
 }
